@@ -4,6 +4,7 @@ package main
 // transcribes by hand are pinned as source facts, so that an edit of them breaks the tie until the transcription (and
 // the expectation in checks/p/C20.py) is revisited:
 //   c20_route         the statement of sendRdb's distributeTask that chooses the worker of an entry   (`route`)
+//                     [c20_route and c20_distribute are printed with the closure's LOCAL variables alpha-renamed (c20Alpha)]
 //   c20_loop_plain    the body of rdbReplay's `for` after the receive: filter branch, selectDB, Replay  (`stepF`, bisync = false)
 //   c20_loop_bisync   the same of rdbReplayBisync                                                     (`stepF`, bisync = true)
 //   c20_distribute    the whole closure distributeTask: receive, routing AND the send `pipes[idx] <- e` (an entry goes to the
@@ -14,10 +15,44 @@ package main
 // Log and metric statements are dropped before printing.
 
 import (
+	"fmt"
 	"go/ast"
 	"go/token"
+	"sort"
 	"strings"
 )
+
+// c20Alpha makes a printed fact STRUCTURAL with respect to local names: every variable DECLARED inside `scope` (`:=`, `var`,
+// range / select bindings - what the parser's object resolution attributes to a declaration lying inside scope) is renamed
+// to v0, v1, … in the order of the declarations. Renaming a local then leaves the fact unchanged; statement order, the
+// def-use structure (which declaration an occurrence refers to) and everything declared outside scope stay visible.
+func c20Alpha(root ast.Node, scope ast.Node) {
+	lo, hi := scope.Pos(), scope.End()
+	seen := map[*ast.Object]bool{}
+	var objs []*ast.Object
+	ast.Inspect(root, func(n ast.Node) bool {
+		if id, ok := n.(*ast.Ident); ok && id.Obj != nil && id.Obj.Kind == ast.Var && !seen[id.Obj] {
+			if p := id.Obj.Pos(); p >= lo && p < hi {
+				seen[id.Obj] = true
+				objs = append(objs, id.Obj)
+			}
+		}
+		return true
+	})
+	sort.Slice(objs, func(i, j int) bool { return objs[i].Pos() < objs[j].Pos() })
+	names := map[*ast.Object]string{}
+	for i, o := range objs {
+		names[o] = fmt.Sprintf("v%d", i)
+	}
+	ast.Inspect(root, func(n ast.Node) bool {
+		if id, ok := n.(*ast.Ident); ok && id.Obj != nil {
+			if nm, ok := names[id.Obj]; ok {
+				id.Name = nm
+			}
+		}
+		return true
+	})
+}
 
 func c20Strip(n ast.Node) {
 	ast.Inspect(n, func(m ast.Node) bool {
@@ -64,6 +99,7 @@ func genC20() {
 		case "sendRdb":
 			if b := c19Closure(fn, "distributeTask"); b != nil {
 				c20Strip(b)
+				c20Alpha(b, b) // the closure's locals (e, ok, idx, routeKey) by declaration order
 				facts["c20_distribute"] = c17Print(fset, b)
 			}
 			for _, st := range fn.Body.List {
